@@ -118,7 +118,14 @@ def intToDec (n : Int) : Bytes :=
   | Int.ofNat k => natToDec k
   | Int.negSucc k => 45 :: natToDec (k + 1)
 
-def toOct (n : Nat) : Bytes := (String.ofList (Nat.toDigits 8 n)).toUTF8.toList
+/-- octal digits, most significant first (fuel-bounded like `natDigits`) -/
+def octDigits : Nat → Nat → Bytes → Bytes
+  | 0, _, acc => acc
+  | fuel + 1, n, acc =>
+    if n < 8 then (48 + n).toUInt8 :: acc else octDigits fuel (n / 8) ((48 + n % 8).toUInt8 :: acc)
+
+/-- octal rendering of a natural number (`%o`) -/
+def toOct (n : Nat) : Bytes := octDigits (n + 1) n []
 
 end B
 end Nfpm
